@@ -181,14 +181,25 @@ def linearizableBrute (s : SeqState) (H : List Call) : Bool :=
 /-- the facts the go/ast extractor reports about sequencer.go (`c07.facts`) -/
 structure Facts where
   nextLocksFirst : Bool      -- NextSequenceNumber's body starts with s.mutex.Lock()
-  nextDefersUnlock : Bool    -- … followed by defer s.mutex.Unlock()
-  rocLocksFirst : Bool       -- the same for RollOverCount
+  nextDefersUnlock : Bool    -- … and releases it by `defer s.mutex.Unlock()` as the next statement, or by
+                             -- one top-level Unlock() after the last access to the fields, no return before it
+  rocLocksFirst : Bool       -- the same for RollOverCount (RLock/RUnlock accepted: it only reads)
   rocDefersUnlock : Bool
-  noOtherLockOps : Bool      -- no other Lock/Unlock/TryLock call in either body
+  noOtherLockOps : Bool      -- no other use of the mutex, no func literal, no go statement in either body
   fieldsPrivate : Bool       -- sequenceNumber / rollOverCount are touched only by the two methods
                              -- (and initialised in the two constructors' literals)
   maxInitialRandom : Nat     -- value of the constant maxInitialRandomSequenceNumber
   deriving DecidableEq, Repr
+
+/-- `c07.randstart`: what was seen of `n` fresh random sequencers' first values -/
+structure RandStart where
+  n : Nat
+  minFirst : Nat
+  maxFirst : Nat
+  deriving DecidableEq, Repr
+
+/-- "a random sequencer starts below 2^15" -/
+def randStartOk (o : RandStart) : Bool := decide (o.maxFirst < 32768)
 
 def factsOk (f : Facts) : Bool :=
   f.nextLocksFirst && f.nextDefersUnlock && f.rocLocksFirst && f.rocDefersUnlock &&
